@@ -288,7 +288,7 @@ CP_DOMAINS = {"__get__": ["slot", "slot_value_none", "fget_none", "cb_raises", "
 CP_ORACLES = {"__get__": oracle_cp_get, "__set__": oracle_cp_set, "__delete__": oracle_cp_delete}
 
 
-def check(ctx, rep: Report):
+def _check_main(ctx, rep: Report):
     rep.extra["exhaustive"] = True
     rep.rules["C12.T"] = "exhaustive decision tables of spec_property.__get__/__set__/__delete__ vs the protocol oracle; non-trivial = distinct (conditions, effects) rows"
     for meth in ("__get__", "__set__", "__delete__"):
@@ -379,3 +379,11 @@ def check(ctx, rep: Report):
         rep.oblige("C12.K", f"_spec_property_base.{meth}", not bad, "; ".join(bad))
         for b in bad:
             rep.violate(Violation("C12.K", f"C12.K|{meth}|{b[:50]}", f"_spec_property_base.{meth}: {b}", f"{m[0].module.relpath}:{m[0].node.lineno}", f"_spec_property_base.{meth}"))
+
+
+def check(ctx, rep):
+    from . import metarules, shared
+    _check_main(ctx, rep)
+    shared.own_namespace_lookups(ctx, rep, "C12.NS")
+    shared.unused_params(ctx, rep, "C12.PARAM", ["spec_classes.types.spec_property"])
+    metarules.preparer_registration(ctx, rep, "C12.PREP")
